@@ -24,6 +24,39 @@ uint8_t g_pv;           /* the value there */
 #define C06_PS(alpha) ((size_t)3 + (size_t)(alpha))
 #define C06_LINE(w, alpha) ((size_t)1 + (size_t)(w) * C06_PS(alpha))
 
+/* ---- zlib call protocol of the IDAT chunk.  compressBound is abstract: some value >= its argument, MONOTONE in it (true of zlib's formula
+ * sourceLen + (sourceLen >> 12) + (sourceLen >> 14) + (sourceLen >> 25) + 13); the ghosts record for which argument the bound was computed. */
+typedef unsigned char Bytef; typedef unsigned long uLongf; typedef unsigned long uLong;
+extern size_t g_zb_arg, g_zb_ret, g_z_len, g_z_out, g_chunk_size; extern const void* g_z_src; extern const void* g_chunk_data; extern int g_z_ret, g_chunk_calls;
+size_t C06_compressBound(size_t n)
+__CPROVER_ensures(__CPROVER_return_value >= n && g_zb_arg == n && g_zb_ret == __CPROVER_return_value)
+__CPROVER_assigns(g_zb_arg, g_zb_ret);
+int C06_compress2(Bytef* dest, uLongf* destLen, const Bytef* source, uLong sourceLen, int level)
+__CPROVER_requires(__CPROVER_w_ok(destLen, sizeof(uLongf)))
+/* zlib.h: "Upon entry, destLen is the total size of the destination buffer, which must be at least the value returned by compressBound(sourceLen)" */
+__CPROVER_requires(*destLen >= g_zb_ret && g_zb_arg >= sourceLen)
+__CPROVER_requires(*destLen == 0 || __CPROVER_w_ok(dest, *destLen))
+__CPROVER_requires(sourceLen == 0 || __CPROVER_r_ok(source, sourceLen))
+__CPROVER_requires(level >= -1 && level <= 9)
+__CPROVER_ensures(g_z_src == source && g_z_len == sourceLen && g_z_ret == __CPROVER_return_value)
+__CPROVER_ensures(__CPROVER_return_value == 0 ==> (*destLen <= __CPROVER_old(*destLen) && g_z_out == *destLen))
+__CPROVER_assigns(*destLen, g_z_src, g_z_len, g_z_ret, g_z_out; *destLen != 0: __CPROVER_object_from(dest));
+void C06_png_chunk_call(const char* type, const void* data, size_t size)
+__CPROVER_ensures(g_chunk_calls == __CPROVER_old(g_chunk_calls) + 1 && g_chunk_data == data && g_chunk_size == size)
+__CPROVER_assigns(g_chunk_calls, g_chunk_data, g_chunk_size);
+
+void Image_save_png_idat(const Image* self, void* image_data, size_t image_size)
+__CPROVER_requires(__CPROVER_is_fresh(self, sizeof(Image)))
+__CPROVER_requires(1 <= self->width && self->width <= C06_DIM && 1 <= self->height && self->height <= C06_DIM)
+__CPROVER_requires(image_size == (size_t)self->height * C06_LINE(self->width, self->has_alpha))
+__CPROVER_requires(__CPROVER_is_fresh(image_data, image_size))
+__CPROVER_requires(verif_exc == 0 && g_chunk_calls == 0)
+/* the whole scan-line buffer is compressed */
+__CPROVER_ensures(g_z_src == image_data && g_z_len == image_size)
+/* success: one IDAT chunk with exactly the bytes compress2 produced; failure of compress2: runtime_error, no chunk */
+__CPROVER_ensures(g_z_ret == 0 ? (verif_exc == 0 && g_chunk_calls == 1 && g_chunk_size == g_z_out) : (verif_exc == EXC_runtime_error && g_chunk_calls == 0))
+__CPROVER_assigns(verif_exc, g_zb_arg, g_zb_ret, g_z_src, g_z_len, g_z_ret, g_z_out, g_chunk_calls, g_chunk_data, g_chunk_size);
+
 void Image_save_png_scanlines(const Image* self, void** out_image_data, size_t* out_image_size)
 __CPROVER_requires(__CPROVER_is_fresh(self, sizeof(Image)))
 __CPROVER_requires(__CPROVER_is_fresh(out_image_data, sizeof(void*)))
